@@ -158,7 +158,7 @@ def rand_stdin(rng):
     if k < 0.45:
         return None
     if k < 0.55:
-        return ""
+        return rng.choice(["", "", " ", "\n", " \n\t ", "\x00", "()", "1.2.3", "1.2.3\n"])
     if k < 0.8:
         return ron.zerv_to_ron(objgen.rand_schema(rng, ascii_only=False), objgen.rand_vars(rng, ascii_only=False, bound=2 ** 64))
     if k < 0.92:
